@@ -159,7 +159,11 @@ def body(case, stats):
         f1, f2, f3 = (os.path.join(d, n) for n in ("a.json", "b.json", "c.json"))
         with warnings.catch_warnings():
             warnings.simplefilter("ignore")
-            sys.save(f1, indent=indent)
+            try:
+                sys.save(f1, indent=indent)
+            except Exception as e:
+                raise Fail("save.exception." + type(e).__name__,
+                           "save() raised {}: {}".format(type(e).__name__, e))
             doc1 = json.load(open(f1))
             try:
                 sys2 = System.from_file(f1)
